@@ -65,6 +65,15 @@ Compare(s, i, prec, op) ==
 Ops == {"Eq", "Lt", "Lte", "Gt", "Gte"}
 Precisions == {"Minute", "Second"}
 
+\* The same comparison on the MATHEMATICAL values (unbounded integers, spec/common/BigInt), for any instant of the i64
+\* range: clock = the absolute clock value in seconds the component can read at that precision, i = the instant in
+\* seconds.  There is no saturation in it: an instant beyond every representable clock simply is later (earlier) than
+\* the clock, whatever the code converts it to on the way.
+B == INSTANCE BigInt
+BTrunc60(i) == B!Mul(B!Mk(i.s, B!DivSmall(i, 60).l), B!FromInt(60))     \* toward zero, as MinuteOf(i * 1000) * 60
+BOp(c, op) == CASE op = "Eq" -> c = 0 [] op = "Lt" -> c < 0 [] op = "Lte" -> c <= 0 [] op = "Gt" -> c > 0 [] OTHER -> c >= 0
+CompareBig(clock, i, prec, op) == BOp(B!Cmp(clock, IF prec = "Minute" THEN BTrunc60(i) ELSE i), op)
+
 ---------------------------------------------------------------------------
 \* Properties (C44)
 TimeNeverDecreases == [][ms' >= ms /\ minute' >= minute]_vars
